@@ -58,7 +58,10 @@ Expected(ev) ==
     [] ev.op = "ufunc" -> VUfunc(ev.v, ev.T, a.mul = 1)
     [] ev.op = "filter" -> VFilter(ev.v, ev.T, a.k)
     \* round trips through the conversion functions: everything reachable survives (C14, C15, C16)
-    [] ev.op \in {"rt_buffers", "rt_pickle", "rt_arrow", "rt_json", "rt_iter", "rt_numpy"} -> Ok(ev.v)
+    \* (JSON and from_iter go through the ArrayBuilder, which UNIFIES records of different field sets into one record type
+    \*  with missing fields -- Builder!Unify, C14 -- so a union of record types does not come back as it went)
+    [] ev.op \in {"rt_json", "rt_iter"} -> IF HasUnion(ev.T) /\ HasRecT(ev.T) THEN Unspec ELSE Ok(ev.v)
+    [] ev.op \in {"rt_buffers", "rt_pickle", "rt_arrow", "rt_numpy"} -> Ok(ev.v)
     [] ev.op = "same" -> Ok(ev.v)
     [] ev.op = "maysame" -> May(ev.v)                  \* to_regular: refuses lists of unequal lengths
 
